@@ -155,10 +155,21 @@ def c02_check(scn):
     for j in range(len(snaps)):
         for k in range(j + 1, len(snaps)):
             closed, later = snaps[j][1], snaps[k][2]
+            if spec.get("life") is not None:
+                # trimming pops old candles: compare the closed candles that are still retained later, by timestamp
+                by_ts = {c[0][0]: c for c in later}
+                kept = [c for c in closed if c[0][0] in by_ts]
+                if kept != [by_ts[c[0][0]] for c in kept]:
+                    d = first_diff(kept, [by_ts[c[0][0]] for c in kept])
+                    return {"clause": "repaint-live", "observed": {"at": snaps[j][0], "later": snaps[k][0], **(d or {})},
+                            "expected": "a closed candle that is still retained is unchanged"}
+                continue
             if later[: len(closed)] != closed:
                 d = first_diff(closed, later[: len(closed)])
                 return {"clause": "repaint-live", "observed": {"at": snaps[j][0], "later": snaps[k][0], **(d or {})},
                         "expected": "closed candles of an earlier snapshot are a prefix of every later snapshot"}
+    if spec.get("life") is not None:
+        return None  # the batch clause compares whole lists; trimming is C15's subject
     # batch over a longer list vs batch over a prefix
     try:
         full = snapshot(run_batch(spec, stream).candles)
@@ -178,6 +189,13 @@ def c02_case(rng, idx, params):
     spec, step = gen_cfg(rng, gen_any_spec(rng, 0.3))
     n = rng.randint(0, params.get("size", 40))
     stream, meta = gen.gen_stream(rng, n, step=step)
+    if rng.random() < 0.15:
+        spec["ha"] = True
+    if rng.random() < 0.2 and n > 4:
+        # lifespan case: strictly increasing stamps so that retained candles can be matched by timestamp
+        stream, meta = gen.gen_stream(rng, n, ts_style=rng.choice(["regular", "gaps", "phase"]), step=step)
+        gaps = [b[0] - a[0] for a, b in zip(stream, stream[1:])]
+        spec["life"] = max(gaps) * rng.randint(2, 12)
     (init, chunks), shape = gen.gen_schedule(rng, n)
     cuts = sorted({rng.randint(0, n) for _ in range(3)}) if n else []
     scn = {"spec": spec, "stream": stream, "init": init, "chunks": chunks, "cuts": cuts}
@@ -463,13 +481,22 @@ def c15b_case(rng, idx, params):
     stream, meta = gen.gen_stream(rng, n, ts_style="phase", step=step)
     k = max(warm + 2, 17)
     life = k * step + rng.randint(0, step - 1)
+    meta_tight = rng.random() < 0.4
+    if meta_tight:
+        # the tightest window the property allows: the dense phase still fits the whole warm-up into the window, and in the
+        # sparse phase the candles are exactly one lifespan apart, so exactly ONE predecessor survives each trim
+        life = k * step
+        half = n // 2
+        t0 = stream[0][0]
+        stream = [((t0 + i * step) if i < half else (t0 + (half - 1) * step + (i - half + 1) * life),) + tuple(c[1:])
+                  for i, c in enumerate(stream)]
     spec = dict(spec, life=life)
     scn = {"spec": spec, "stream": stream, "init": 0, "chunks": [1] * n}
     bad = c15b_check(scn)
     viol = None
     if bad:
         viol = {"scenario": scn, **bad, "signature": f"C15:{kind_of(spec)}:{bad['clause']}"}
-    meta.update({"kind": kind_of(spec), "window_sparse": k // 8})
+    meta.update({"kind": kind_of(spec), "window_sparse": 1 if meta_tight else k // 8})
     return {"nontrivial": True, "key": hash(str(scn)), "violation": viol, "meta": meta,
             "sample": {"spec": spec, "n": n, "life": life} if idx < 2 else None}
 
@@ -675,3 +702,121 @@ def c17_geometry_live_case(rng, idx, params):
 def c17_geometry_live_replay(w):
     bad = c17_geometry_live_check(w["scenario"])
     return {"fails": bad is not None, "detail": bad}
+
+
+# ------------------------------------------------------------------------------------ C10: rounded after calculate_index
+
+
+def c10_rounded_check(scn):
+    spec = scn["spec"]
+    ind = run_batch(spec, scn["stream"])
+    n = len(ind.candles)
+    if n == 0:
+        return None
+    for i in scn["indices"]:
+        ind.calculate_index(i % n if scn["positive"] else (i % n) - n)
+    rv = spec.get("round", 4)
+    for j, c in enumerate(ind.candles):
+        v = c.indicators.get(ind.name)
+        vals = list(v.values()) if isinstance(v, dict) else [v]
+        for x in vals:
+            if isinstance(x, float) and round(x, rv) != x:
+                return {"clause": "rounded-after-calculate_index", "observed": {"index": j, "value": x, "round_value": rv},
+                        "expected": "every stored top-level float is rounded to round_value decimals"}
+    return None
+
+
+def c10_rounded_case(rng, idx, params):
+    spec = specs.gen_spec(rng)
+    spec["round"] = rng.choice([0, 1, 2, 3, 5, 6])
+    n = rng.randint(5, params.get("size", 40))
+    stream, meta = gen.gen_stream(rng, n)
+    scn = {"spec": spec, "stream": stream, "indices": [rng.randint(0, 1000) for _ in range(3)], "positive": rng.random() < 0.5}
+    try:
+        bad = c10_rounded_check(scn)
+    except Exception:
+        bad = None
+    viol = {"scenario": scn, **bad, "signature": f"C10:{kind_of(spec)}:{bad['clause']}"} if bad else None
+    meta.update({"kind": kind_of(spec) + ":cidx"})
+    return {"nontrivial": True, "key": hash(str(scn)), "violation": viol, "meta": meta, "sample": None}
+
+
+def c10_rounded_replay(w):
+    bad = c10_rounded_check(w["scenario"])
+    return {"fails": bad is not None, "detail": bad}
+
+
+# ------------------------------------------------------------------------------------ C07 inside a Hexital (inputs that are other readings)
+
+
+def measure_hexital_append(members, stream, n):
+    from hexital.core.hexital import Hexital
+
+    cands = RecList(cm.mk_candles(stream[:n]))
+    hx = Hexital("H", cands, [specs.build_indicator(sp, [], with_manager=False) for sp in members])
+    hx.calculate()
+    new = cm.mk_candles(stream[n : n + 1])
+    count = [0]
+
+    def prof(frame, event, arg):
+        if event == "call" and any(p in frame.f_code.co_filename for p in PROFILED):
+            count[0] += 1
+
+    RecList.touched = set()
+    sys.setprofile(prof)
+    try:
+        hx.append(new)
+    finally:
+        sys.setprofile(None)
+    return count[0], len(RecList.touched)
+
+
+def c07_hexital_check(scn):
+    total = len(scn["stream"]) - 1
+    res = [measure_hexital_append(scn["members"], scn["stream"][total - n :], n) for n in scn["lengths"]]
+    base_calls, base_reach = res[0]
+    for calls, reach in res[1:]:
+        if calls > base_calls * 1.02 + 3:
+            return {"clause": "work-grows", "observed": {"n": scn["lengths"], "calls": [r[0] for r in res]},
+                    "expected": "number of calls into indicator code per append independent of history length"}
+        if reach > base_reach + 2:
+            return {"clause": "window-grows", "observed": {"n": scn["lengths"], "candles_read": [r[1] for r in res]},
+                    "expected": "number of distinct candles read per append independent of history length"}
+    return None
+
+
+def c07_hexital_case(rng, idx, params):
+    k = rng.random()
+    if k < 0.4:
+        # movement analyses over a reading that is None on most candles
+        src = {"kind": "SUPERTREND", "period": rng.randint(3, 8), "multiplier": 3.0, "round": 4}
+        nm = f"Supertrend_{src['period']}." + rng.choice(["short", "long"])
+        members = [src] + [{"kind": "AMORPH", "fn": f, "ind": nm, "length": rng.choice([2, 4, 8]), "round": 4}
+                           for f in rng.sample(["highest", "lowest", "rising", "falling", "mean_rising", "value_range"], 2)]
+    elif k < 0.8:
+        # indicators fed by a nested reading of another member
+        m = {"kind": "MACD", "fast": 3, "slow": 6, "signal": 3, "round": 4}
+        nm = "MACD_3_6_3." + rng.choice(["MACD", "histogram", "signal"])
+        members = [m] + [dict(rng.choice([{"kind": "BBANDS", "period": 5}, {"kind": "STDEVTHRES", "period": 5, "multiplier": 2.0},
+                                          {"kind": "STOCH", "period": 5, "slow": 3, "smoothk": 3}, {"kind": "TSI", "period": 6},
+                                          {"kind": "STDEV", "period": 6}, {"kind": "SMA", "period": 4}]), input=nm, round=4)]
+    else:
+        members = [specs.gen_spec(rng) for _ in range(rng.randint(2, 3))]
+    lengths = params.get("lengths", [150, 600])
+    stream, meta = gen.gen_stream(rng, max(lengths) + 1, price_style=rng.choice(["walk", "rising", "falling", "jumpy"]), ts_style="regular")
+    scn = {"members": members, "stream": stream, "lengths": lengths}
+    try:
+        bad = c07_hexital_check(scn)
+    except Exception:
+        bad = None
+    viol = {"scenario": scn, **bad, "signature": f"C07:hexital:{members[-1]['kind']}:{bad['clause']}"} if bad else None
+    meta.update({"kind": "hexital:" + members[-1]["kind"]})
+    return {"nontrivial": True, "key": hash(str(members) + str(stream[:3])), "violation": viol, "meta": meta,
+            "sample": {"members": members, "lengths": lengths} if idx < 1 else None}
+
+
+def c07_any_replay(w):
+    if "members" in w["scenario"]:
+        bad = c07_hexital_check(w["scenario"])
+        return {"fails": bad is not None, "detail": bad}
+    return c07_replay(w)
